@@ -17,10 +17,19 @@
 //     f11 f12 f13 (1+M; 0)     FactorizedKriging<1,M,double,PieceWiseLinear,Adaptator<Default<M>>>
 //     K1 K2 K3 (d; 0)          Kriging1D / Kriging2D / Kriging3D (raw coordinates, normalised inside)
 //     F11 F12 F13 (1+M; 0)     FactorizedKriging1D1D / 1D2D / 1D3D
-//     kf1 kf2 kf3 (d; 1)       parser::KrigedFunction<N>(points, nugget), setVariableValue/getValue
+//       the six wrapper kinds use the std::vector<double> constructors; with the suffix `v` (K1v .. F13v)
+//       the tfel::math::vector<double> constructors (hence KrigingUtilities::normalize(tfel::math::vector));
+//       with a further suffix `+c` (K2+1, K3v+3 ..) argument number c of the constructor (0..d-1: the
+//       coordinate columns, d: the values) receives one element more than the others: the constructor
+//       must raise KrigingErrorInvalidLength (only c >= 1 is requested: the loops run over argument 0)
+//     kf1 kf2 kf3 (d; 1)       parser::KrigedFunction<N>(points, nugget): setVariableValue/getValue at the
+//                              training points, the queries through a copy (resolveDependencies and
+//                              createFunctionByChangingParametersIntoVariables); setVariableValue(N, .)
+//                              must raise and leave the value unchanged (else `err index-unchecked`)
 // stdout: ok <N> m <N*N> rhs <N> a <N> ev <n+nq>      (N = n + number of drifts; evaluations at the
 //                                                       n training points first, then at the queries)
-//         err <invalid-length|no-data|insufficient-data|degenerate|singular [N m.. rhs..]|other>
+//         err <invalid-length|no-data|insufficient-data|degenerate|singular [N m.. rhs..]|index-unchecked|
+//              clone-differs|other>
 // The harness is compiled in two parts (in parallel, see checks/C19.py):
 //   -DC19_PART=1 : k1 k2 k3 pw cu kf1 kf2 kf3      -DC19_PART=2 : f11 f12 f13 K1 K2 K3 F11 F12 F13
 // a part answers `skip` to the kinds of the other one; without the macro everything is served.
@@ -31,6 +40,9 @@
 #include <cstdint>
 #include <cstring>
 #include <iostream>
+#include <map>
+#include <memory>
+#include <stdexcept>
 #include <sstream>
 #include <string>
 #include <vector>
@@ -145,6 +157,8 @@ static std::string show_hex(const double x) {
 struct Request {
   std::string kind;
   std::size_t n = 0, nq = 0, d = 0;
+  bool tfelvec = false;  // wrappers: tfel::math::vector<double> constructor
+  int extra = -1;        // wrappers: constructor argument receiving one element too many
   std::vector<double> nug, pts, f, q;
 };
 
@@ -209,6 +223,22 @@ static std::vector<double> column(const std::vector<double>& p,
   return r;
 }
 
+// constructor arguments of a wrapper: the d coordinate columns, then the values
+static std::vector<std::vector<double>> columns(const Request& r) {
+  std::vector<std::vector<double>> c;
+  for (std::size_t k = 0; k != r.d; ++k) c.push_back(column(r.pts, r.n, r.d, k));
+  c.push_back(r.f);
+  if (r.extra >= 0) {
+    auto& e = c.at(static_cast<std::size_t>(r.extra));
+    e.push_back(e.empty() ? 1. : e.back() + 1.);
+  }
+  return c;
+}
+
+static tfel::math::vector<double> tv(const std::vector<double>& v) {
+  return tfel::math::vector<double>(v.begin(), v.end());
+}
+
 #if C19_PART != 2
 template <unsigned short N>
 static void run_kriged_function(const Request& r, std::ostringstream& os) {
@@ -223,7 +253,40 @@ static void run_kriged_function(const Request& r, std::ostringstream& os) {
     return kf.getValue();
   };
   for (std::size_t i = 0; i != r.n; ++i) ev.push_back(at(&r.pts[i * N]));
-  for (std::size_t i = 0; i != r.nq; ++i) ev.push_back(at(&r.q[i * N]));
+  // an index beyond the last variable must be rejected and must not disturb the variables
+  if (kf.getNumberOfVariables() != N) throw std::runtime_error("number of variables");
+  for (const std::size_t bad : {std::size_t(N), std::size_t(N + 1)}) {
+    const auto before = at(&r.pts[0]);
+    bool raised = false;
+    try {
+      kf.setVariableValue(bad, 4096.5);
+    } catch (std::exception&) {
+      raised = true;
+    }
+    const auto after = kf.getValue();
+    if (!raised || show_hex(before) != show_hex(after)) {
+      os << "err index-unchecked";
+      return;
+    }
+  }
+  // the queries through copies: the variables' values and the interpolant must be carried over
+  for (std::size_t i = 0; i != r.nq; ++i) {
+    const auto direct = at(&r.q[i * N]);
+    std::vector<std::string> names(1, "x");
+    const auto c1 = kf.resolveDependencies();
+    const auto c2 = kf.createFunctionByChangingParametersIntoVariables(
+        names, std::vector<double>(), std::vector<std::string>(),
+        std::map<std::string, std::vector<double>::size_type>());
+    if (show_hex(c1->getValue()) != show_hex(direct) ||
+        show_hex(c2->getValue()) != show_hex(direct) || !names.empty()) {
+      os << "err clone-differs";
+      return;
+    }
+    // the copy is a function of its own variables
+    for (unsigned short c = 0; c != N; ++c) c1->setVariableValue(c, r.pts[c]);
+    for (unsigned short c = 0; c != N; ++c) c1->setVariableValue(c, r.q[i * N + c]);
+    ev.push_back(c1->getValue());
+  }
   finish(os, ev);
 }
 
@@ -269,58 +332,71 @@ static void dispatch(const Request& r, std::ostringstream& os) {
   } else if (k == "f13") {
     run_factorized<3u>(r, os);
   } else if (k == "K1") {
-    const Kriging1D kr(column(r.pts, n, 1, 0), r.f);
+    const auto c = columns(r);
+    const std::unique_ptr<const Kriging1D> kr(
+        r.tfelvec ? new Kriging1D(tv(c[0]), tv(c[1])) : new Kriging1D(c[0], c[1]));
     std::vector<double> ev;
-    for (std::size_t i = 0; i != n; ++i) ev.push_back(kr(r.pts[i]));
-    for (std::size_t i = 0; i != r.nq; ++i) ev.push_back(kr(r.q[i]));
+    for (std::size_t i = 0; i != n; ++i) ev.push_back((*kr)(r.pts[i]));
+    for (std::size_t i = 0; i != r.nq; ++i) ev.push_back((*kr)(r.q[i]));
     finish(os, ev);
   } else if (k == "K2") {
-    const Kriging2D kr(column(r.pts, n, 2, 0), column(r.pts, n, 2, 1), r.f);
+    const auto c = columns(r);
+    const std::unique_ptr<const Kriging2D> kr(
+        r.tfelvec ? new Kriging2D(tv(c[0]), tv(c[1]), tv(c[2]))
+                  : new Kriging2D(c[0], c[1], c[2]));
     std::vector<double> ev;
     for (std::size_t i = 0; i != n; ++i)
-      ev.push_back(kr(r.pts[2 * i], r.pts[2 * i + 1]));
+      ev.push_back((*kr)(r.pts[2 * i], r.pts[2 * i + 1]));
     for (std::size_t i = 0; i != r.nq; ++i)
-      ev.push_back(kr(r.q[2 * i], r.q[2 * i + 1]));
+      ev.push_back((*kr)(r.q[2 * i], r.q[2 * i + 1]));
     finish(os, ev);
   } else if (k == "K3") {
-    const Kriging3D kr(column(r.pts, n, 3, 0), column(r.pts, n, 3, 1),
-                       column(r.pts, n, 3, 2), r.f);
+    const auto c = columns(r);
+    const std::unique_ptr<const Kriging3D> kr(
+        r.tfelvec ? new Kriging3D(tv(c[0]), tv(c[1]), tv(c[2]), tv(c[3]))
+                  : new Kriging3D(c[0], c[1], c[2], c[3]));
     std::vector<double> ev;
     for (std::size_t i = 0; i != n; ++i)
-      ev.push_back(kr(r.pts[3 * i], r.pts[3 * i + 1], r.pts[3 * i + 2]));
+      ev.push_back((*kr)(r.pts[3 * i], r.pts[3 * i + 1], r.pts[3 * i + 2]));
     for (std::size_t i = 0; i != r.nq; ++i)
-      ev.push_back(kr(r.q[3 * i], r.q[3 * i + 1], r.q[3 * i + 2]));
+      ev.push_back((*kr)(r.q[3 * i], r.q[3 * i + 1], r.q[3 * i + 2]));
     finish(os, ev);
   } else if (k == "F11") {
-    const FactorizedKriging1D1D kr(column(r.pts, n, 2, 0),
-                                   column(r.pts, n, 2, 1), r.f);
+    const auto c = columns(r);
+    const std::unique_ptr<const FactorizedKriging1D1D> kr(
+        r.tfelvec ? new FactorizedKriging1D1D(tv(c[0]), tv(c[1]), tv(c[2]))
+                  : new FactorizedKriging1D1D(c[0], c[1], c[2]));
     std::vector<double> ev;
     for (std::size_t i = 0; i != n; ++i)
-      ev.push_back(kr(r.pts[2 * i], r.pts[2 * i + 1]));
+      ev.push_back((*kr)(r.pts[2 * i], r.pts[2 * i + 1]));
     for (std::size_t i = 0; i != r.nq; ++i)
-      ev.push_back(kr(r.q[2 * i], r.q[2 * i + 1]));
+      ev.push_back((*kr)(r.q[2 * i], r.q[2 * i + 1]));
     finish(os, ev);
   } else if (k == "F12") {
-    const FactorizedKriging1D2D kr(column(r.pts, n, 3, 0),
-                                   column(r.pts, n, 3, 1),
-                                   column(r.pts, n, 3, 2), r.f);
+    const auto c = columns(r);
+    const std::unique_ptr<const FactorizedKriging1D2D> kr(
+        r.tfelvec
+            ? new FactorizedKriging1D2D(tv(c[0]), tv(c[1]), tv(c[2]), tv(c[3]))
+            : new FactorizedKriging1D2D(c[0], c[1], c[2], c[3]));
     std::vector<double> ev;
     for (std::size_t i = 0; i != n; ++i)
-      ev.push_back(kr(r.pts[3 * i], r.pts[3 * i + 1], r.pts[3 * i + 2]));
+      ev.push_back((*kr)(r.pts[3 * i], r.pts[3 * i + 1], r.pts[3 * i + 2]));
     for (std::size_t i = 0; i != r.nq; ++i)
-      ev.push_back(kr(r.q[3 * i], r.q[3 * i + 1], r.q[3 * i + 2]));
+      ev.push_back((*kr)(r.q[3 * i], r.q[3 * i + 1], r.q[3 * i + 2]));
     finish(os, ev);
   } else if (k == "F13") {
-    const FactorizedKriging1D3D kr(
-        column(r.pts, n, 4, 0), column(r.pts, n, 4, 1), column(r.pts, n, 4, 2),
-        column(r.pts, n, 4, 3), r.f);
+    const auto c = columns(r);
+    const std::unique_ptr<const FactorizedKriging1D3D> kr(
+        r.tfelvec ? new FactorizedKriging1D3D(tv(c[0]), tv(c[1]), tv(c[2]),
+                                              tv(c[3]), tv(c[4]))
+                  : new FactorizedKriging1D3D(c[0], c[1], c[2], c[3], c[4]));
     std::vector<double> ev;
     for (std::size_t i = 0; i != n; ++i)
-      ev.push_back(kr(r.pts[4 * i], r.pts[4 * i + 1], r.pts[4 * i + 2],
-                      r.pts[4 * i + 3]));
+      ev.push_back((*kr)(r.pts[4 * i], r.pts[4 * i + 1], r.pts[4 * i + 2],
+                         r.pts[4 * i + 3]));
     for (std::size_t i = 0; i != r.nq; ++i)
       ev.push_back(
-          kr(r.q[4 * i], r.q[4 * i + 1], r.q[4 * i + 2], r.q[4 * i + 3]));
+          (*kr)(r.q[4 * i], r.q[4 * i + 1], r.q[4 * i + 2], r.q[4 * i + 3]));
     finish(os, ev);
   } else
 #endif
@@ -330,7 +406,21 @@ static void dispatch(const Request& r, std::ostringstream& os) {
 }
 
 static bool layout(Request& r) {
+  // suffixes of the wrapper kinds: [v][+c]
+  const auto plus = r.kind.find('+');
+  if (plus != std::string::npos) {
+    const auto c = r.kind.substr(plus + 1);
+    if (c.size() != 1 || c[0] < '0' || c[0] > '9') return false;
+    r.extra = c[0] - '0';
+    r.kind.erase(plus);
+  }
+  if (r.kind.size() > 1 && r.kind.back() == 'v') {
+    r.tfelvec = true;
+    r.kind.pop_back();
+  }
   const auto& k = r.kind;
+  if ((r.tfelvec || r.extra >= 0) && (k.empty() || (k[0] != 'K' && k[0] != 'F')))
+    return false;
   std::size_t nn = 0;
   if (k == "k1" || k == "pw" || k == "kf1") {
     r.d = 1;
@@ -355,6 +445,7 @@ static bool layout(Request& r) {
   } else {
     return false;
   }
+  if (r.extra > static_cast<int>(r.d)) return false;
   r.nug.resize(nn);
   return true;
 }
